@@ -150,6 +150,7 @@ func checkC15(p *Prog, r *Report) {
 	r.rule("C15.G2", "postProcess re-arms its die arm after every processed item on every path and returns on die only when chPostProcessing is empty", 2)
 	r.rule("C15.G3", "the periodic update callback is re-submitted only on the not-closed arm", 1)
 	r.rule("C15.G4", "UDPSession.Close (no listener, owned conn) and Listener.Close (owned conn) close the transport", 2)
+	r.rule("C15.G8", "a session leaves the listener's table only by being closed: the functions that delete from Listener.sessions are called from UDPSession.Close alone, and a store into the table that can replace an existing session is preceded on every such path by Close of the session found — otherwise the replaced session's goroutine, timer task, queues and blocked readers stay behind for good (one per datagram)", 2)
 	r.rule("C15.G7", "a receive goroutine ends on every failed socket read (no path from err != nil back to the read): closing the transport terminates it whatever error the transport reports (= C13.W9)", 4)
 	r.rule("C15.G6", "a session created by the listener is handed to Accept or closed on every path: nothing else holds a reference that could ever stop its goroutine and its scheduled callback", 1)
 	r.rule("C15.G5", "sends on chAccepts are controlled by the room test len < cap; sends on the scheduler's chTask are in a select with die", 2)
@@ -324,6 +325,7 @@ func checkC15(p *Prog, r *Report) {
 		}
 	}
 	checkCreatedSessionsOwned(p, r)
+	checkSessionsLeaveByClose(p, r, "C15.G8")
 	checkBoundedSends(p, r)
 }
 
@@ -1577,4 +1579,155 @@ func checkFieldAliasesOnPut(p *Prog, r *Report, put *types.Func) {
 		}
 		r.check(len(missing) == 0, "C15.O6", s.Fn.Name, p.Pos(s.Call), "Put("+exprString(s.Call.Args[0])+")", "all aliasing fields cleared with it", fmt.Sprintf("the buffer is recycled while %v still points into it: a later read through that field returns bytes another owner of the pooled buffer has written (the stream is altered after Close, for example)", missing))
 	}
+}
+
+// checkSessionsLeaveByClose: C15.G8 / C05.B12.
+func checkSessionsLeaveByClose(p *Prog, r *Report, rule string) {
+	fSess := p.Field("Listener", "sessions")
+	closeM := p.Method("UDPSession", "Close")
+	// (a) who deletes from the table, and who calls them
+	n := 0
+	for _, fi := range p.funcs {
+		if fi.Body == nil {
+			continue
+		}
+		deletes := false
+		inspectBody(fi, func(x ast.Node) bool {
+			if call, ok := x.(*ast.CallExpr); ok && p.BuiltinName(call) == "delete" && len(call.Args) == 2 {
+				if t := p.Term(call.Args[0]); t.Op == "fld" && t.Obj == fSess {
+					deletes = true
+				}
+			}
+			return true
+		})
+		if !deletes {
+			continue
+		}
+		root := rootFuncInfo(fi)
+		if root.Obj == closeM {
+			n++
+			r.ok(rule, root.Name, p.Pos(root.Node), "deletion from Listener.sessions in "+root.Name, "inside UDPSession.Close")
+			continue
+		}
+		if root.Obj == nil {
+			r.bad(rule, root.Name, p.Pos(root.Node), "deletion from Listener.sessions in "+root.Name, "the table is modified in a function whose callers are not known", "")
+			continue
+		}
+		sites := p.CallsTo(root.Obj)
+		if len(sites) == 0 || p.usedAsValue(root.Obj) {
+			n++
+			r.check(!p.usedAsValue(root.Obj), rule, root.Name, p.Pos(root.Node), "callers of "+root.Name, "never called", root.Name+" (which deletes from Listener.sessions) is used as a value: its callers are not known")
+			continue
+		}
+		for _, s := range sites {
+			n++
+			caller := rootFuncInfo(s.Fn)
+			r.check(caller.Obj == closeM, rule, caller.Name, p.Pos(s.Call), "call of "+root.Name+" in "+caller.Name, "only UDPSession.Close takes a session out of the listener's table", caller.Name+" removes a session from the listener's table without closing it: the session's goroutine, scheduler task, buffers and blocked readers stay behind, and the listener can no longer reach it — repeated per datagram this grows without bound")
+		}
+	}
+	// (b) a store into the table on a path where a session was found under the key
+	for _, fi := range p.funcs {
+		if fi.Body == nil {
+			continue
+		}
+		c := p.CFG(fi)
+		inspectBody(fi, func(x ast.Node) bool {
+			as, ok := x.(*ast.AssignStmt)
+			if !ok {
+				return true
+			}
+			for _, l := range as.Lhs {
+				ie, isIdx := ast.Unparen(l).(*ast.IndexExpr)
+				if !isIdx {
+					continue
+				}
+				if t := p.Term(ie.X); !(t.Op == "fld" && t.Obj == fSess) {
+					continue
+				}
+				n++
+				spt, _ := c.PointOf(as)
+				// lookups of the table in the same function: s, ok := l.sessions[k]
+				bad := ""
+				found := 0
+				inspectBody(fi, func(y ast.Node) bool {
+					las, isAs := y.(*ast.AssignStmt)
+					if !isAs || len(las.Lhs) != 2 || len(las.Rhs) != 1 {
+						return true
+					}
+					lie, isL := ast.Unparen(las.Rhs[0]).(*ast.IndexExpr)
+					if !isL {
+						return true
+					}
+					if t := p.Term(lie.X); !(t.Op == "fld" && t.Obj == fSess) {
+						return true
+					}
+					sv := identVar(p, las.Lhs[0])
+					okv := identVar(p, las.Lhs[1])
+					if sv == nil || okv == nil {
+						return true
+					}
+					found++
+					// from every true edge of a test of okv, a path to the store without sv.Close()
+					for _, b := range c.live {
+						ct := c.CondTerm(b)
+						if ct == nil || len(b.Succs) != 2 {
+							continue
+						}
+						var from *cfg.Block
+						if ct.Op == "var" && ct.Obj == okv {
+							from = b.Succs[0]
+						} else if ct.Op == "not" && ct.Args[0].Op == "var" && ct.Args[0].Obj == okv {
+							from = b.Succs[1]
+						}
+						if from == nil {
+							continue
+						}
+						res := c.FindPath(PathQuery{From: Point{from, 0}, IsTarget: func(_ ast.Node, q Point) bool { return q == spt },
+							IsBarrier: func(nd ast.Node, _ Point) bool {
+								hit := false
+								inspectShallow(nd, func(z ast.Node) bool {
+									if call, isC := z.(*ast.CallExpr); isC && p.Callee(call) == closeM {
+										if sel, isS := ast.Unparen(call.Fun).(*ast.SelectorExpr); isS {
+											if id, isI := ast.Unparen(sel.X).(*ast.Ident); isI && p.Info.Uses[id] == sv {
+												hit = true
+											}
+										}
+									}
+									return true
+								})
+								return hit
+							}})
+						if res.Found {
+							bad = c.DescribePath(res.Path)
+						}
+					}
+					return true
+				})
+				switch {
+				case found == 0:
+					r.ok(rule, fi.Name, p.Pos(as), "store into Listener.sessions in "+fi.Name, "no lookup of an existing session in this function")
+				case bad != "":
+					r.bad(rule, fi.Name, p.Pos(as), "store into Listener.sessions in "+fi.Name, "a path on which a session was found in the table reaches this store without closing that session: the replaced session is orphaned (its goroutine, scheduler task, buffers and blocked readers stay behind)", bad)
+				default:
+					r.ok(rule, fi.Name, p.Pos(as), "store into Listener.sessions in "+fi.Name, "every path on which a session was found closes it before the store")
+				}
+			}
+			return true
+		})
+	}
+	if n == 0 {
+		r.bad(rule, "Listener", "-", "session table", "no deletion from or store into Listener.sessions found", "")
+	}
+}
+
+func identVar(p *Prog, e ast.Expr) *types.Var {
+	id, ok := ast.Unparen(e).(*ast.Ident)
+	if !ok || id.Name == "_" {
+		return nil
+	}
+	if v, ok := p.Info.Defs[id].(*types.Var); ok {
+		return v
+	}
+	v, _ := p.Info.Uses[id].(*types.Var)
+	return v
 }
